@@ -60,7 +60,7 @@ func init() {
 	}
 }
 
-var c34Kinds = []string{"create", "create2f", "remove", "dissociate", "realloc", "control", "send", "status", "rpc", "listnodes"}
+var c34Kinds = []string{"create", "create2f", "remove", "removef", "dissociate", "realloc", "control", "send", "status", "rpc", "listnodes"}
 
 // the Redis store: the kinds whose store side differs most from the etcd store
 var c34RedisKinds = []string{"listnodes", "create", "remove", "status"}
@@ -108,7 +108,7 @@ func checkC34(t *testing.T, c *vcore.Ctx) {
 		reps = 200
 	}
 	gmps := []int{2, 16}
-	c.SetRule("every unordered pair (with repetition) of operation kinds from {create EACH x2 on 2 nodes with one instance failing by an injected engine fault, the same with both instances of one node failing, remove of one workload on each of 3 nodes (two nodes share a pod, the third is alone in its pod), dissociate of the same shape, realloc, control stop+start, send, set+get workload status, two concurrent unary RPCs (GetPod) on a real grpc server over bufconn serving rpc.Vibranium, listing the three real nodes of a pod (each node's heartbeat status is read from its own pool goroutine)}; the pairs over {list nodes, create, remove, status} also on the Redis store; " +
+	c.SetRule("every unordered pair (with repetition) of operation kinds from {create EACH x2 on 2 nodes with one instance failing by an injected engine fault, the same with both instances of one node failing, remove of one workload on each of 3 nodes (two nodes share a pod, the third is alone in its pod), the same remove with the engine refusing every removal (each node's worker rolls back), dissociate of the same shape, realloc, control stop+start, send, set+get workload status, two concurrent unary RPCs (GetPod) on a real grpc server over bufconn serving rpc.Vibranium, listing the three real nodes of a pod (each node's heartbeat status is read from its own pool goroutine)}; the pairs over {list nodes, create, remove, status} also on the Redis store; " +
 		"run as two goroutines released together on one real core instance (real Calcium/Mercury/cobalt/cpumem/WAL over memetcd and the fakev engines), free-running in a -race build, R repetitions x GOMAXPROCS in {2,16}, one child process per scenario with GORACE=log_path; " +
 		"a race report counts when both access stacks can be attributed and at least one is attributed to github.com/projecteru2/core (not mocks), none to the harness; non-trivial = distinct (scenario, GOMAXPROCS) in which both operations ran to completion with their expected results")
 	c.Assume("the race detector observes the executions the runtime happened to produce: this check is exhaustive over the scenario alphabet only, schedules are sampled")
@@ -283,6 +283,8 @@ func c34Want(kind string) string {
 		return "ok3/fail0"
 	case "remove", "dissociate", "realloc", "send":
 		return "ok3/fail0"
+	case "removef":
+		return "ok0/fail3"
 	case "control", "status":
 		return "ok6/fail0"
 	}
@@ -644,10 +646,13 @@ func (f *c34Fault) settle() {
 
 func (f *c34Fault) intercept(ctx context.Context, s world.Step) error {
 	f.steps.Add(1)
+	who := world.Who(ctx)
+	if s.Layer == "engine" && s.Kind == "remove" && f.kinds[who] == "removef" {
+		return world.ErrInjected // the engine refuses every removal of this call: each node's worker rolls back
+	}
 	if s.Layer != "engine" || s.Kind != "create" {
 		return nil
 	}
-	who := world.Who(ctx)
 	switch f.kinds[who] {
 	case "create":
 		// the first instance to reach the engine on n2 fails
@@ -690,7 +695,7 @@ func c34Op(ctx context.Context, inst *world.Instance, w *c34World, kind, slot st
 		for _, m := range msgs {
 			count(m.Error == nil)
 		}
-	case "remove":
+	case "remove", "removef":
 		ch, err := inst.Cal.RemoveWorkload(ctx, ids, true)
 		if err != nil {
 			return "error:" + err.Error()
